@@ -35,7 +35,7 @@ CHECKS = {
 "C11": ("exploration", "Additivity of rule switches as a metamorphic relation (lints(S) = lints(A)+lints(B), sparse configurations (others absent / null) = dense ones (others false), full singleton decomposition, switching one rule off removes exactly its lints, all-off = nothing), overlay algebra against a map model (fill_with_curated, merge_from, clear, JSON round trip, unknown keys), a stateful check of the whole configuration API on one long-lived linter (map model; lints = fresh linter with the model's switches), the harper.js config path (also after further calls on the same Linter: word imports, checks in either language, state reads) and the harper-ls settings path (published diagnostics and the lints behind its code actions) against the in-process model; configurations range from a few entries to near-complete settings dumps with unknown names.",
         "Rules are the distinct configuration keys (iter_keys de-duplicated).",
         "metamorphic + model-based property testing (proptest)"),
-"C12": ("exploration", "Metamorphic relation on generated pairs (P, D): lints(P+D) == lints(P) ++ shift(lints(D), |P|) as sorted multisets over all lint fields, all rules on, plain English.",
+"C12": ("exploration", "Metamorphic relation on generated pairs (P, D): lints(P+D) == lints(P) ++ shift(lints(D), |P|) as sorted multisets over all lint fields, all rules on, plain English; families: independent texts, shared words, abbreviations ending P, ordinals, special openers, blank runs, indented first lines.",
         "P is quote-free, ends in a terminator and a paragraph break, as the statement requires.",
         "metamorphic property testing (proptest)"),
 "C13": ("exploration", "All ordered lists of <=3 (thorough 4) spans over 0..=5 exhaustively, random larger lists, and real lint lists of generated documents; oracle = sub-multiset, pairwise conflict-free, every dropped lint starts inside a kept one; on documents additionally back-to-front application equals a reference that splices in original coordinates; the real harper-cli binary on generated files with 0-2 --only-lint-with rules must print exactly a conflict-free selection.",
